@@ -190,10 +190,15 @@ def main(argv_tier=None, replay_path=None):
                                                        "events": x["trace"]["ev"], "verdict": x["verdict"], "seed": seed()})
         vio_out.append(("step %d %s history=%s" % (x["verdict"]["step"], x["verdict"]["clause"], ",".join(x["trace"]["history"])), p))
     deep = len({tuple(t["history"]) for t in traces if any(e["op"] == "search" and e["out"] == "ok" for e in t["ev"])})
+    import growth
+    ga = growth.alias(tr)
+    for o in ga["observations"]:
+        print("OBSERVATION (outside the listed properties) %s" % o)
     from common import apalache_inductive
     apa = apalache_inductive("APA_ClientSM", "CInit", "CNext", "IndInit", "IndInv")
     cov = {
         "apalache_inductive_invariant": apa,
+        "growth": {"alias_registry": ga},
         "states": r.distinct, "transitions": r.generated,
         "traces_validated_against_impl": len(traces), "trace_validation_states": agg["distinct"],
         "evaluations": len(traces), "distinct_nontrivial": len({tuple(t["history"]) for t in traces if any(e["out"] == "ok" for e in t["ev"])}),
